@@ -137,6 +137,17 @@ Proof.
   - apply sat_get_chan_conf; [exact Hd|]. intros c p'. now apply sat_ret.
 Qed.
 
+(** [clamp_desc_size]: at most the size read, and the descriptor ends at or before the end of
+    its container when it starts before it *)
+Lemma clamp_desc_size_le sz e pos : clamp_desc_size sz e pos <= sz.
+Proof. unfold clamp_desc_size. apply N.le_min_l. Qed.
+
+Lemma clamp_desc_size_end sz e pos : pos <= e -> pos + clamp_desc_size sz e pos <= e.
+Proof. unfold clamp_desc_size. intros H. clear -H. lia. Qed.
+
+Lemma clamp_desc_size_u32 sz e pos : sz < U32 -> clamp_desc_size sz e pos < U32.
+Proof. intros H. pose proof (clamp_desc_size_le sz e pos) as L. clear -H L. lia. Qed.
+
 Lemma sat_decconfig_loop d fuel current e ds p : bytes_ok d = true ->
   sat d p (decconfig_loop fuel current e ds) (fun _ _ => True).
 Proof.
@@ -169,7 +180,7 @@ Proof.
   - sat_go; [|exact I]. apply sat_read_desc; [exact Hd|]. intros tag sz p' Hsz Hp'.
     sat_go.
     + unfold dec_decconfig.
-      eapply sat_bind; [apply sat_dec_decconfig_fuel; auto|]. cbn beta. intros r1 p1 _.
+      eapply sat_bind; [apply sat_dec_decconfig_fuel; auto using clamp_desc_size_u32|]. cbn beta. intros r1 p1 _.
       sat_go. apply IH.
     + unfold dec_slconfig. sat_go. apply IH.
     + apply IH.
@@ -193,7 +204,7 @@ Proof.
   - apply sat_spin.
   - sat_go; [|exact I]. apply sat_read_desc; [exact Hd|]. intros tag sz p' Hsz Hp'.
     sat_go; [|exact I]. unfold dec_esdesc.
-    eapply sat_bind; [apply sat_dec_esdesc_fuel; auto|]. cbn beta. intros y p1 _.
+    eapply sat_bind; [apply sat_dec_esdesc_fuel; auto using clamp_desc_size_u32|]. cbn beta. intros y p1 _.
     sat_go. apply IH.
 Qed.
 
